@@ -2,47 +2,64 @@
 
 CFG = {'module': 'Dnp3.Props.C10',
  'gen': ['Conversions.lean'],
- 'engines': ['convert'],
+ 'engines': ['convert', 'db', 'outstationdb'],
  'monitors': None,
  'exhaustive_quick': True,
  'exhaustive_thorough': True,
- 'rule': 'engine convert: real Database (add/update) -> select -> write_response_headers (all fragments, each '
-         'confirmed) -> ParsedFragment::parse -> extract_measurements -> recording ReadHandler. (A) type x '
-         'configured static variation x requested variation (0 = none) EXHAUSTIVELY, 256 points per case = every '
-         'flag octet; (B) type x configured event variation x requested event variation EXHAUSTIVELY; (C) the '
-         'analog boundary pool (i16/i32/f32 bounds +-1 and +-1 ulp, halves, +-0, subnormals, NaN payloads, '
-         '+-inf, f32 rounding ties) and every power of two 2^-1074..2^1023 (quick: all in [-160,140] and the '
-         'extremes, stride 7 elsewhere) through all 14+12 analog variations, counters around 2^16 / 2^31 / 2^32 '
-         'through all counter variations; (D) event lists sharing g2v3/g4v3 common-time headers with gaps '
-         '<,=,> 65535 ms, decreasing times, quality switches, missing times, interleaved types, several '
-         'fragments; (E) dense (quick 3001 points, thorough 65536) and sparse index sets up to 65535, packed '
-         'formats with islands of non-ONLINE points; (F) mixed multi-type scenarios with class / count-limited '
-         'reads and event-buffer overflow. distinct = distinct canonical op lists; every case drives the real '
-         'outstation database writer and the real master parser/extractor',
- 'trusted_base': ['hand-written Lean model Dnp3/Model/Measurement.lean of app/measurement.rs (to_i16/to_i32/to_f32), '
-                  'app/extensions.rs (wire flags), range/traits.rs (promote), event/write_fn.rs + event/writer.rs '
-                  '(common-time header switching), master/convert.rs + master/extract.rs (common-time fold), tied by '
-                  'differential execution (engine convert: handler output predicted line by line)',
-                  'the 138 ToVariation/From impls of app/gen/conversion.rs are regenerated into Gen/Conversions.lean on '
-                  'every run (tools/gen_conversions.py); model, driver and theorems interpret that table',
-                  'IEEE-754 f64->f32 rounding: the model computes it by integer round-to-nearest-even (f64ToF32Bits) and '
-                  'cross-checks the value the harness supplies from its own integer implementation, which is self-checked '
-                  'against the host FPU on every value; the theorems hold for any rounding (r32 is a parameter); NaN payload '
-                  'propagation is the hardware convention (quieted, top bits kept)',
-                  'octet encoding of object fields and headers is not part of this model (C09); the engine runs the real '
-                  'encoder and parser',
-                  'harness reference (eng_convert.rs::Ref) = independent statement of the property used by the monitors'],
- 'assumptions': ['zero-length octet strings are not generated (the library documents that it does not parse them by default)',
-                 'absolute-time variations carry no time quality: the master reports them as synchronized; a point without '
-                 'a time is sent as time 0',
-                 'flag-less non-packed variations (g20v5/6, g21v9/10, g30v3/4) drop the flag octet as configured: the '
-                 'library promotes only g1v1/g3v1/g10v1 (counted in partition obs_flagless_variation_dropped_non_online_flags)'],
- 'level_text': 'Lean theorems for ALL values about the conversion model: integer saturation = clamp(trunc) with '
-               'OVER_RANGE iff out of range and no wrap / sign flip; NaN witness (D11); 16-bit counters = value mod '
-               '65536; packed variations only for plainly ONLINE points and the flagged variation carries the whole '
-               'octet; common-time reconstruction for every event list in any order with the exact header-switch '
-               'rule; per-variation round trip = carry over every row of the regenerated conversions table against a '
-               'hand-written object-library specification. Tie: conversion.rs regenerated each run + object-level '
-               'differential execution database -> handler, exhaustive over (type x configured x requested variation)',
- 'level_note': 'trusted: Lean kernel (+ propext/Classical.choice/Quot.sound), translate.py/gen_conversions.py, the '
-               'correspondence harness; the Rust is modelled, not verified; byte encoding is C09'}
+ 'rule': 'engine convert: real Database (add/update) -> select -> write_response_headers (all fragments, '
+         'each confirmed) -> ParsedFragment::parse -> extract_measurements -> recording ReadHandler. (A) '
+         'type x configured static variation x requested variation (0 = none) EXHAUSTIVELY, 256 points per '
+         'case = every flag octet; (B) type x configured event variation x requested event variation '
+         'EXHAUSTIVELY; (C) the analog boundary pool (i16/i32/f32 bounds +-1 and +-1 ulp, halves, +-0, '
+         'subnormals, NaN payloads, +-inf, f32 rounding ties) and every power of two 2^-1074..2^1023 (quick: '
+         'all in [-160,140] and the extremes, stride 7 elsewhere) through all 14+12 analog variations, '
+         'counters around 2^16 / 2^31 / 2^32 through all counter variations; (D) event lists sharing '
+         'g2v3/g4v3 common-time headers with gaps <,=,> 65535 ms, decreasing times, quality switches, '
+         'missing times, interleaved types, several fragments; (E) dense (quick 3001 points, thorough 65536) '
+         'and sparse index sets up to 65535, packed formats with islands of non-ONLINE points; (F) mixed '
+         'multi-type scenarios with class / count-limited reads and event-buffer overflow. distinct = '
+         'distinct canonical op lists; every case drives the real outstation database writer and the real '
+         'master parser/extractor Engines db and outstationdb (the real Database / the real OutstationTask '
+         'over a populated database, see C11): every response and unsolicited fragment the database writers '
+         'emit, at every capacity and resumption point, is decoded by an independent decoder and compared '
+         'with the mirrored reference database.',
+ 'trusted_base': ['hand-written Lean model Dnp3/Model/Measurement.lean of app/measurement.rs '
+                  '(to_i16/to_i32/to_f32), app/extensions.rs (wire flags), range/traits.rs (promote), '
+                  'event/write_fn.rs + event/writer.rs (common-time header switching), master/convert.rs + '
+                  'master/extract.rs (common-time fold), tied by differential execution (engine convert: '
+                  'handler output predicted line by line)',
+                  'the 138 ToVariation/From impls of app/gen/conversion.rs are regenerated into '
+                  'Gen/Conversions.lean on every run (tools/gen_conversions.py); model, driver and theorems '
+                  'interpret that table',
+                  'IEEE-754 f64->f32 rounding: the model computes it by integer round-to-nearest-even '
+                  '(f64ToF32Bits) and cross-checks the value the harness supplies from its own integer '
+                  'implementation, which is self-checked against the host FPU on every value; the theorems '
+                  'hold for any rounding (r32 is a parameter); NaN payload propagation is the hardware '
+                  'convention (quieted, top bits kept)',
+                  'octet encoding of object fields and headers is not part of this model (C09); the engine '
+                  'runs the real encoder and parser',
+                  'harness reference (eng_convert.rs::Ref) = independent statement of the property used by '
+                  'the monitors',
+                  'hand-written Lean model of outstation/database/** (event buffer, static database, '
+                  'response writers) tied by differential execution of the real Database (engine db) and of '
+                  'the real OutstationTask (engine outstationdb)'],
+ 'assumptions': ['zero-length octet strings are not generated (the library documents that it does not parse '
+                 'them by default)',
+                 'absolute-time variations carry no time quality: the master reports them as synchronized; a '
+                 'point without a time is sent as time 0',
+                 'flag-less non-packed variations (g20v5/6, g21v9/10, g30v3/4) drop the flag octet as '
+                 'configured: the library promotes only g1v1/g3v1/g10v1 (counted in partition '
+                 'obs_flagless_variation_dropped_non_online_flags)'],
+ 'level_text': 'Lean theorems for ALL values about the conversion model: integer saturation = clamp(trunc) '
+               'with OVER_RANGE iff out of range and no wrap / sign flip; NaN witness (D11); 16-bit counters '
+               '= value mod 65536; packed variations only for plainly ONLINE points and the flagged '
+               'variation carries the whole octet; common-time reconstruction for every event list in any '
+               'order with the exact header-switch rule; per-variation round trip = carry over every row of '
+               'the regenerated conversions table against a hand-written object-library specification. Tie: '
+               'conversion.rs regenerated each run + object-level differential execution database -> '
+               'handler, exhaustive over (type x configured x requested variation)',
+ 'level_note': 'trusted: Lean kernel (+ propext/Classical.choice/Quot.sound), '
+               'translate.py/gen_conversions.py, the correspondence harness; the Rust is modelled, not '
+               'verified; byte encoding is C09',
+ 'engine_monitors': {'db': ['series_is_exact_snapshot'],
+                     'outstationdb': ['series_covers_exactly_once_snapshot']}}
